@@ -13,6 +13,7 @@ import itertools
 import json
 import random
 import re
+import sys
 from decimal import Decimal
 from fractions import Fraction
 
@@ -20,7 +21,9 @@ import common as C
 
 PROP = 'C04'
 THEOREMS = ['Lessm.Expr.C04_table', 'Lessm.Expr.C04_prodprec', 'Lessm.Expr.C04_parse', 'Lessm.Expr.C04_parse_paren',
-            'Lessm.Expr.C04_eval', 'Lessm.Expr.C04_eval_zero', 'Lessm.Expr.C04']
+            'Lessm.Expr.C04_eval', 'Lessm.Expr.C04_eval_zero', 'Lessm.Expr.C04',
+            'Lessm.Sign.C04_sign_clean', 'Lessm.Sign.C04_sign_fixed', 'Lessm.Sign.C04_sign_idem', 'Lessm.Sign.C04_sign_conservative',
+            'Lessm.Sign.C04_sign_value', 'Lessm.Sign.C04_sign_reading', 'Lessm.Sign.C04_sign_local']
 LVL = {'+': 1, '-': 1, '*': 2, '/': 2}
 NUM_RE = re.compile(r'^(-?(?:\d+\.?\d*|\.\d+)(?:e[-+]?\d+)?)([a-z%]*)$')
 
@@ -66,7 +69,7 @@ def ok_tree(e, top=True):
     if v != 0 and not (Fraction(1, 1000) <= abs(v) < 10 ** 12):
         return False
     k = e[0]
-    # (-@v with a negative value, -(-@v), -(-(@v)) were excluded here while C04-negvar was an open finding; repaired by 88a3bc0)
+    # (-@v with a negative value, -(-@v), -(-(@v)) were excluded here while C04-negvar was an open finding; repaired by c681c54)
     if k in ('p', 'neg'):
         return ok_tree(e[1], False)
     if k == 'b':
@@ -198,6 +201,36 @@ def std_tree(flat):
     return parse(1, [0])
 
 
+SIGN_POOL = ['-3px', '3px', '-.5em', '.5em', '-', '--3', '-x', '-moz-box', '-5', '5', '-0', '-.', '-.x', 'a', '+', '*', '-9%', '#fff', '"-1"', '-1e3', ',', '-٣']
+
+
+def fold_correspondence(rng, n):
+    """random flat token lists with Sign tokens -> (count, disagreements as (input, model, real))"""
+    sys.path.insert(0, C.REPO)
+    try:
+        from lesscpy.lessc import utility as U
+    finally:
+        sys.path.pop(0)
+    lists = []
+    for _ in range(n):
+        k = rng.randrange(0, 9)
+        lists.append([('<S>' if rng.random() < 0.45 else rng.choice(SIGN_POOL)) for _ in range(k)])
+    try:
+        model = C.Driver().run([('c04.signs', ' '.join(l)) for l in lists])
+    except Exception as e:  # noqa
+        return n, [(' '.join(l), 'DRIVER: %r' % e, None) for l in lists[:1]]
+    dis = []
+    for l, m in zip(lists, model):
+        try:
+            real = U.fold_signs([U.Sign('-') if t == '<S>' else t for t in l])
+            real = ' '.join('<S>' if isinstance(t, U.Sign) else t for t in real)
+        except Exception as e:  # noqa
+            real = 'EXC %r' % e
+        if real != m:
+            dis.append((' '.join(l), m, real))
+    return n, dis
+
+
 def run(tier):
     chk = C.Check(PROP, tier, 'proof')
     rng = random.Random(C.seed() * 32452843 + 4)
@@ -282,6 +315,27 @@ def run(tier):
         chk.violation({'kind': 'arith-error', 'source': rend(i, None), 'expression': texts[i][0], 'actual': list(rr), 'model': model[i]})
     for k in (0, 40, len(cases) - 1, len(cases) - 2):
         chk.sample({'source': rend(k, None), 'real': out.get(k), 'model': model[k], 'exact': str(value(cases[k][0])) + unit(cases[k][0])})
+    # ---- unary minus on a variable wherever a value can stand (the sign is a token of its own until the value is known:
+    #      repaired defect C04-negvar); expected = the exact negation, computed here
+    sign_cases = []
+    for v in ('-3px', '3px', '-.5em', '2', '-12.25', '-7%'):
+        q, u = dec(re.match(r'-?[\d.]+', v).group(0)), re.sub(r'^-?[\d.]+', '', v)
+        for tmpl, sgn in (('@a:%s;.s{x:-@a}', -1), ('@a:%s;@b:-@a;.s{x:-@b}', 1), ('@a:%s;@b:@a;.s{x:-@b}', -1), ('@a:%s;.s{x:(-@a)}', -1),
+                          ('@a:%s;.s{x:-(@a)}', -1), ('@a:%s;.s{x:-(-@a)}', 1), ('@a:%s;.m(@p){x:@p} .s{.m(-@a);}', -1),
+                          ('@a:%s;.m(@p){x:-@p} .s{.m(-@a);}', 1), ('@a:%s;.s{y:1px;x:-@a !important}', -1),
+                          ('@a:%s;@media print{.s{x:-@a}}', -1), ('@a:%s;.s{.t{x:-@a}}', -1)):
+            sign_cases.append((tmpl % v, sgn * q, u))
+    for src, want, u in sign_cases:
+        r = C.real_compile(src, minify=True)
+        m = re.search(r'x:(-?[\d.]+(?:e-?\d+)?)([a-z%]*)', r[1]) if r[0] == 'ok' else None
+        chk.count(('sign', src), nontrivial=True)
+        if not m or dec(m.group(1)) != want or m.group(2) != u or '--' in r[1]:
+            chk.violation({'kind': 'sign', 'source': src, 'expected': 'x:%s%s' % (want, u), 'actual': list(r)[:3]})
+    # ---- the sign folding itself: utility.fold_signs against Lessm.Sign.foldSigns on the same token lists (in-process)
+    sign_dis = fold_correspondence(rng, 400 if tier == 'quick' else 20000)
+    chk.cov['fold_signs_lists_compared'] = sign_dis[0]
+    for d in sign_dis[1][:3]:
+        disagreements.append(d)
     # ---- known findings are replayed verbatim
     for f in C.known_findings(PROP):
         r = C.real_compile(f['input'], minify=True)
